@@ -416,10 +416,26 @@ pub fn render(items: &[Item]) -> Rendered {
                     s.push(')');
                     w.ln(&s);
                 }
-                if !t.indirect.is_empty() && (t.indirect.len() + t.params.len()) % 2 == 0 {
-                    // @pytest.mark.parametrize("a, b", [(1, 2)], indirect=True): the names live inside ONE string
+                // the spelling is a function of the content
+                let iform = (t.indirect.iter().map(|n| n.len()).sum::<usize>() + t.params.len()) % 5;
+                if !t.indirect.is_empty() && iform == 2 {
+                    // @pytest.mark.parametrize(("a", "b"), [(1, 2)], indirect=True): a tuple of names
                     let vals: Vec<&str> = t.indirect.iter().map(|_| "1").collect();
-                    let mut s = format!("{}@pytest.mark.parametrize(\"", ind);
+                    let mut s = format!("{}@pytest.mark.parametrize((", ind);
+                    for n in t.indirect.iter() {
+                        s.push('"');
+                        let st = u16len(&s);
+                        s.push_str(n);
+                        out.toks.push(Tok { kind: TokKind::Indirect, name: n.clone(), line: w.line, start: st, end: u16len(&s), item: idx, in_fixture: None });
+                        s.push_str("\", ");
+                    }
+                    s.push_str(&format!("), [({},)], indirect=True)", vals.join(", ")));
+                    w.ln(&s);
+                } else if !t.indirect.is_empty() && (iform == 0 || iform == 4) {
+                    // @pytest.mark.parametrize("a, b", [(1, 2)], indirect=True): the names live inside ONE string
+                    // (iform 4: given by keyword)
+                    let vals: Vec<&str> = t.indirect.iter().map(|_| "1").collect();
+                    let mut s = if iform == 4 { format!("{}@pytest.mark.parametrize(argnames=\"", ind) } else { format!("{}@pytest.mark.parametrize(\"", ind) };
                     for (i, n) in t.indirect.iter().enumerate() {
                         if i > 0 {
                             s.push_str(", ");
@@ -428,13 +444,18 @@ pub fn render(items: &[Item]) -> Rendered {
                         s.push_str(n);
                         out.toks.push(Tok { kind: TokKind::Indirect, name: n.clone(), line: w.line, start: st, end: u16len(&s), item: idx, in_fixture: None });
                     }
-                    s.push_str(&format!("\", [({},)], indirect=True)", vals.join(", ")));
+                    if iform == 4 {
+                        s.push_str(&format!("\", argvalues=[({},)], indirect=True)", vals.join(", ")));
+                    } else {
+                        s.push_str(&format!("\", [({},)], indirect=True)", vals.join(", ")));
+                    }
                     w.ln(&s);
                 } else if !t.indirect.is_empty() {
-                    // @pytest.mark.parametrize("a,b", [(1, 2)], indirect=["a", "b"])
+                    // @pytest.mark.parametrize("a,b", [(1, 2)], indirect=["a", "b"])   (iform 3: indirect=("a", "b",))
                     let argnames = t.indirect.join(",");
                     let vals: Vec<&str> = t.indirect.iter().map(|_| "1").collect();
-                    let mut s = format!("{}@pytest.mark.parametrize(\"{}\", [({},)], indirect=[", ind, argnames, vals.join(", "));
+                    let (open, close) = if iform == 3 { ("(", ",)") } else { ("[", "]") };
+                    let mut s = format!("{}@pytest.mark.parametrize(\"{}\", [({},)], indirect={}", ind, argnames, vals.join(", "), open);
                     for (i, n) in t.indirect.iter().enumerate() {
                         if i > 0 {
                             s.push_str(", ");
@@ -445,7 +466,8 @@ pub fn render(items: &[Item]) -> Rendered {
                         out.toks.push(Tok { kind: TokKind::Indirect, name: n.clone(), line: w.line, start: st, end: s.len(), item: idx, in_fixture: None });
                         s.push('"');
                     }
-                    s.push_str("])");
+                    s.push_str(close);
+                    s.push(')');
                     w.ln(&s);
                 }
                 let prefix = format!("{}def {}", ind, t.name);
